@@ -1,4 +1,4 @@
 CONSTANTS S = 4  Stride = 16  GroupMax = 14  MaxRun = 12
 SPECIFICATION Spec
-INVARIANTS EmitStats ProjectionExact C08_LevelLocal C08_KeysRequested
+INVARIANTS EmitStats ProjectionExact C08_LevelLocal C08_SameOutcome C08_KeysRequested
 CHECK_DEADLOCK FALSE
